@@ -1015,4 +1015,293 @@ theorem replyOf_rpTel (aL aH : Nat) (state : ResponseState) (h1 : aL < 128) (h2 
   rw [if_pos ⟨e1, e2⟩]
   rfl
 
+theorem rpTx_len (y aL aH : Nat) (state : ResponseState) (q : Int) : (rpTx y aL aH state q).bytes.length = 6 := by
+  unfold rpTx; simp only [statusResponseBytes_length]
+
+/-- **Phase Q2, the listener is polled**: it has gone back to listening without a pending request; nothing happens. -/
+theorem hq2_listener {cfg : Cfg} {n : Net} {x y : Nat} {stx sty : NetStation} {r q : Int} {state : ResponseState} {lX : Int}
+    {coll : Nat} {tl : Int} (h : HQ2 cfg n x y stx sty r q state lX coll tl) (hok : cfg.Ok) (now : Int) (htl : tl ≤ now)
+    (hown : n.bus.seen.getD y 0 < now) (hgx : now ≤ n.bus.seen.getD x 0 + (cfg.P : Nat)) :
+    ∃ n' c, n.poll y now = (n', [], some (.ok c)) ∧ c.tx = none ∧ HQ2 cfg n' x y stx sty r q state lX coll now := by
+  have hr := hok.rate
+  have hc5 := cfg.ce5 hr
+  have hsY := h.soloY
+  have htto := h.tto
+  have hhead := h.headX
+  have hxs : n.bus.seen.getD x 0 < q + ((cfg.ce 5 : Nat) : Int) := by
+    by_cases h' : n.bus.seen.getD x 0 < q + ((cfg.ce 5 : Nat) : Int)
+    · exact h'
+    · have h' : q + ((cfg.ce 5 : Nat) : Int) ≤ n.bus.seen.getD x 0 := by omega
+      have := (cvis_spec cfg (rpTx y stx.s.p.address sty.s.p.address state q) (n.bus.seen.getD x 0) 5
+        (by rw [rpTx_len]; omega)).2 h'
+      omega
+  obtain ⟨n', c, hp, htx, hS, hseen⟩ := lone_listen_wait hsY hok coll h.sty_st now hown (by omega)
+  obtain ⟨hbus, st0, hst0, hset, -⟩ := Net.poll_bus n y now n' [] c hp
+  rw [htx, hsY.deliver hr now (Int.le_of_lt hown)] at hbus
+  simp only at hbus
+  rw [hsY.gx] at hst0
+  cases hst0
+  have hxy : x ≠ y := Ne.symm h.yx
+  have hsxx : n'.bus.seen.getD x 0 = n.bus.seen.getD x 0 := by rw [hbus]; exact seen_set_other n.bus y x now h.yx
+  refine ⟨n', c, hp, htx, hS, h.sty_st, Int.le_trans h.qtl htl, h.tto, h.nadm,
+    by rw [hset, List.getElem?_set_ne h.yx]; exact h.gx, by rw [hset, List.length_set]; exact h.xl,
+    by rw [hbus]; simp only [List.length_set]; exact h.xs, h.xon, h.stx_st, h.stx_gap, h.yx,
+    by rw [hbus]; exact h.split, by rw [hsxx]; exact h.rxX, by rw [hsxx]; exact h.pendX, by rw [hsxx]; exact h.headX,
+    h.stampX, h.lXge, h.qlate, by rw [hsxx]; exact h.pbok, by rw [hsxx]; exact h.slotok,
+    by rw [hbus]; exact fun t ht => Int.le_trans (h.starts t ht) htl,
+    by rw [hseen, hsxx]; exact ⟨Int.le_trans h.seens.1 htl, Int.le_refl _⟩⟩
+
+/-- **Reply received**: the claimant `x` has consumed the (non-admitting) reply and goes on with its GAP scan; the
+listener `y` listens again; both are up to date with the log, whose last entry is the reply. -/
+structure HQ3 (cfg : Cfg) (n : Net) (x y : Nat) (stx sty : NetStation) (q lx : Int) (coll : Nat) : Prop where
+  soloX : Solo cfg n x stx lx
+  soloY : Solo cfg n y sty (q + (cfg.b66 : Nat))
+  stx_st : stx.s.st = .claimToken .scan
+  stx_gap : stx.s.gap = .doPoll sty.s.p.address
+  sty_st : sty.s.st = .listenToken none coll
+  yx : y ≠ x
+  last : ∃ dnx state, n.bus.txs = dnx ++ [rpTx y stx.s.p.address sty.s.p.address state q] ∧
+    (∀ o ∈ dnx, o.sender = x) ∧ ¬ Admits state .ok
+
+/-- The claimant's context after consuming a non-admitting reply. -/
+def replyCtx (s : Station) (apps : Apps) (now : Int) : Ctx :=
+  { s := { (markRx s now) with st := .claimToken .scan }, apps := apps, rx := [] }
+
+theorem markRx_stamp (s : Station) (now l : Int) (hl : s.lastBusActivity = some l) (hle : l ≤ now) :
+    (markRx s now).lastBusActivity = some now := by
+  unfold markRx markBusActivity
+  simp only [hl, Option.getD_some]
+  rw [Int.max_eq_right hle]
+
+/-- **Phase Q2, the claimant is polled**: while the reply is incomplete it keeps waiting (its slot time restarts with
+every character); once the reply is complete it consumes it and goes on scanning. -/
+theorem hq2_claimant {cfg : Cfg} {n : Net} {x y : Nat} {stx sty : NetStation} {r q : Int} {state : ResponseState} {lX : Int}
+    {coll : Nat} {tl : Int} (h : HQ2 cfg n x y stx sty r q state lX coll tl) (hok : cfg.Ok) (now : Int) (htl : tl ≤ now)
+    (hown : n.bus.seen.getD x 0 < now) :
+    ∃ n' inc c, n.poll x now = (n', inc, some (.ok c)) ∧ c.tx = none ∧ c.s.p = stx.s.p ∧
+      ((∃ lX', HQ2 cfg n' x y (upSt stx c) sty r q state lX' coll now) ∨
+       (q + ((cfg.ce 5 : Nat) : Int) ≤ now ∧ HQ3 cfg n' x y (upSt stx c) sty q now coll)) := by
+  have hr := hok.rate
+  have hmar := hok.margin
+  have hc5 := cfg.ce5 hr
+  have hc0 := cfg.ce_pos hr 0
+  have hsY := h.soloY
+  have hqlate := h.qlate
+  have hqtl := h.qtl
+  obtain ⟨hon, hal, hinv, hson, hprate, hpslot⟩ := h.xon
+  obtain ⟨dnx, htxs0, hdnx⟩ := h.split
+  have hxy : x ≠ y := Ne.symm h.yx
+  have haL : stx.s.p.address < 126 := by have := hinv.addr; have := hinv.hsa; omega
+  have haH : sty.s.p.address < 126 := by have := hinv.gap _ h.stx_gap; have := hinv.hsa; omega
+  have hneA : sty.s.p.address ≠ stx.s.p.address := (hinv.await2 _ h.stx_st).2
+  have hslotT : stx.s.p.slotTime = cfg.slot := by
+    unfold Params.slotTime Cfg.slot Params.bits; rw [hprate, hpslot]
+  obtain ⟨rp, hrp⟩ : ∃ rp, rp = rpTx y stx.s.p.address sty.s.p.address state q := ⟨_, rfl⟩
+  have htxs : n.bus.txs = dnx ++ [rp] := by rw [hrp]; exact htxs0
+  have hrxX : stx.rx = arrived cfg [rp] (n.bus.seen.getD x 0) := by rw [hrp]; exact h.rxX
+  have hpendX : stx.s.pendingBytes ≤ (arrived cfg [rp] (n.bus.seen.getD x 0)).length := by rw [hrp]; exact h.pendX
+  have hslotok : q + ((cfg.ce (cvis cfg rp (n.bus.seen.getD x 0)) : Nat) : Int) ≤ lX + (cfg.slot : Nat) := by
+    rw [hrp]; exact h.slotok
+  have hheadX : cvis cfg rp (n.bus.seen.getD x 0) < 6 := by rw [hrp]; exact h.headX
+  have hlen : rp.bytes.length = 6 := by rw [hrp]; exact rpTx_len ..
+  have hstart : rp.start = q := by rw [hrp]; rfl
+  have hsender : rp.sender = y := by rw [hrp]; rfl
+  have hb : rp.bytes = (rpTel stx.s.p.address sty.s.p.address state).wire := by
+    rw [hrp]; exact statusResponse_frame ..
+  have hsn : n.bus.seen.getD x 0 ≤ now := Int.le_of_lt hown
+  have hbc : n.bus.Chained n.bus.txs := by
+    unfold Bus.Chained
+    have := hsY.chained
+    unfold CChained at this
+    refine this.imp ?_
+    intro o t hot
+    unfold Bus.txEnd
+    rw [byteEnd_cfg n.bus cfg hsY.rate]; exact hot
+  obtain ⟨inc, hdv, hcat⟩ : ∃ inc, n.bus.deliver x now = ({ n.bus with seen := n.bus.seen.set x now }, inc) ∧
+      arrived cfg [rp] (n.bus.seen.getD x 0) ++ inc = arrived cfg [rp] now := by
+    refine ⟨_, Bus.deliver_chained n.bus (by rw [hsY.rate]; exact hr) hsY.corrupt x now hbc hsY.live, ?_⟩
+    rw [htxs, List.map_append, List.flatten_append,
+      seg_done cfg hr n.bus hsY.rate x _ now hsn dnx (fun o ho => .inl (hdnx o ho).1), List.nil_append]
+    exact arrived_extend cfg hr n.bus hsY.rate x _ now hsn [rp] (List.pairwise_singleton _ _)
+      (fun t ht => by simp only [List.mem_singleton] at ht; subst ht; rw [hlen]; omega)
+      (fun t ht => by simp only [List.mem_singleton] at ht; subst ht; rw [hsender]; exact h.yx)
+  have hphy : n.bus.transmitting x now = false := by
+    unfold Bus.transmitting
+    cases hf : n.bus.txs.reverse.find? (fun t => decide (t.sender = x)) with
+    | none => rfl
+    | some t =>
+      have hmem : t ∈ n.bus.txs := List.mem_reverse.1 (List.mem_of_find?_eq_some hf)
+      have hs : t.sender = x := by simpa using List.find?_some hf
+      rw [htxs] at hmem
+      rcases List.mem_append.1 hmem with hm | hm
+      · have := (hdnx t hm).2
+        simp only [decide_eq_false_iff_not]
+        unfold Bus.txEnd
+        rw [byteEnd_cfg n.bus cfg hsY.rate]
+        unfold cEnd at this
+        omega
+      · simp only [List.mem_singleton] at hm; subst hm; rw [hsender] at hs; exact absurd hs h.yx
+  have hrx' : stx.rx ++ inc = arrived cfg [rp] now := by rw [hrxX]; exact hcat
+  have hA : ∀ a, arrived cfg [rp] a = rp.bytes.take (cvis cfg rp a) := by
+    intro a
+    unfold arrived
+    simp only [List.map_cons, List.map_nil, List.flatten_cons, List.flatten_nil, List.append_nil]
+  have hlate : ∀ l0, stx.s.lastBusActivity = some l0 → l0 < now := by
+    intro l0 hl0; rw [h.stampX] at hl0; cases hl0; rcases h.pbok with e | e <;> omega
+  have hno : stx.s.st ≠ .offline ∧ stx.s.st ≠ .passiveIdle := by rw [h.stx_st]; simp
+  obtain ⟨f1, f2, f3, f4, f5, -⟩ := checkBA_fields stx.s now (arrived cfg [rp] now).length
+  have hpd := poll_dispatch stx.s stx.apps now (arrived cfg [rp] now) hson hno.1 hno.2 hlate
+  obtain ⟨l1, hl1, hle1, hcase⟩ := checkBA_stamp stx.s now (arrived cfg [rp] now).length hlate (.inr ⟨lX, h.stampX⟩)
+  have hV6 := cvis_le cfg rp now
+  have hlenA : (arrived cfg [rp] now).length = cvis cfg rp now := by rw [hA, List.length_take, hlen]; omega
+  have hlenS : (arrived cfg [rp] (n.bus.seen.getD x 0)).length = cvis cfg rp (n.bus.seen.getD x 0) := by
+    rw [hA, List.length_take, hlen]; omega
+  have hmono := cvis_mono cfg rp _ now hsn
+  have hstream : arrived cfg [rp] now ++ rp.bytes.drop (cvis cfg rp now) =
+      streamOf [rpTel stx.s.p.address sty.s.p.address state] := by
+    rw [hA, List.take_append_drop, hb]; simp [streamOf]
+  have hvalid := rpTel_valid stx.s.p.address sty.s.p.address state (by omega) (by omega)
+  have hwl : (rpTel stx.s.p.address sty.s.p.address state).wire.length = 6 := by rw [← hb]; exact hlen
+  obtain ⟨hpart, hfull⟩ := C16.receiveTelegram_stream (rpTel stx.s.p.address sty.s.p.address state) []
+    (arrived cfg [rp] now) (rp.bytes.drop (cvis cfg rp now)) hstream hvalid
+  obtain ⟨c', hc', hinv', -⟩ := pollInner_good { s := stx.s, apps := stx.apps, rx := arrived cfg [rp] now } now false hinv rfl
+  have hc'' : stx.s.poll stx.apps now false (arrived cfg [rp] now) = .ok c' := hc'
+  have hl1ge : r + (cfg.b66 : Nat) ≤ l1 := by
+    rcases hcase with ⟨_, e⟩ | ⟨_, e⟩
+    · omega
+    · rw [h.stampX] at e; cases e; exact h.lXge
+  by_cases hV : cvis cfg rp now < 6
+  · -- the reply is still incomplete
+    have hrec := hpart (by rw [hlenA, hwl]; exact hV)
+    have hw_slot : now ≤ l1 + (cfg.slot : Nat) ∧
+        q + ((cfg.ce (cvis cfg rp now) : Nat) : Int) ≤ l1 + (cfg.slot : Nat) := by
+      rcases hcase with ⟨_, e⟩ | ⟨hnn, e⟩
+      · refine ⟨by omega, ?_⟩
+        rw [e]
+        cases hv : cvis cfg rp now with
+        | zero => omega
+        | succ k =>
+          have := (cvis_spec cfg rp now k (by rw [hlen]; omega)).1 (by omega)
+          have := cfg.ce_step hr k
+          omega
+      · rw [h.stampX] at e; cases e
+        have e2 : cvis cfg rp now = cvis cfg rp (n.bus.seen.getD x 0) := by omega
+        rw [e2]
+        refine ⟨?_, hslotok⟩
+        have : ¬ (rp.start + ((cfg.ce (cvis cfg rp (n.bus.seen.getD x 0)) : Nat) : Int) ≤ now) := by
+          intro hc
+          have := (cvis_spec cfg rp now _ (by rw [hlen]; exact hheadX)).2 hc
+          omega
+        omega
+    have hd : dispatch { s := checkBusActivity stx.s now (arrived cfg [rp] now).length, apps := stx.apps, rx := arrived cfg [rp] now } now = .ok { s := checkBusActivity stx.s now (arrived cfg [rp] now).length, apps := stx.apps, rx := arrived cfg [rp] now } := by
+      unfold dispatch
+      simp only [f1, h.stx_st]
+      rw [claimAwait_partial _ now l1 1 sty.s.p.address (arrived cfg [rp] now) false
+        (by show (checkBusActivity stx.s now _).st = _; rw [f1]; exact h.stx_st) hl1
+        (by show (checkBusActivity stx.s now _).gap = _; rw [f5]; exact h.stx_gap)
+        (by show _ ≠ (checkBusActivity stx.s now _).p.address; rw [f2]; exact hneA) hrec
+        (by show now ≤ l1 + (((checkBusActivity stx.s now _).p.slotTime : Nat) : Int); rw [f2, hslotT]; exact hw_slot.1)]
+    rw [hpd, hd] at hc''
+    cases hc''
+    have hpoll : stx.s.poll stx.apps now (Bus.transmitting { n.bus with seen := n.bus.seen.set x now } x now) (stx.rx ++ inc) =
+        .ok { s := checkBusActivity stx.s now (arrived cfg [rp] now).length, apps := stx.apps, rx := arrived cfg [rp] now } := by
+      rw [transmitting_seen, hphy, hrx', hpd]; exact hd
+    have hpe := Net.poll_eq n x now stx _ inc _ h.gx hal hon hdv hpoll
+    obtain ⟨n', hpe', hbus, hstn⟩ : ∃ n', n.poll x now = (n', inc, some (.ok { s := checkBusActivity stx.s now (arrived cfg [rp] now).length, apps := stx.apps, rx := arrived cfg [rp] now })) ∧
+        n'.bus = { n.bus with seen := n.bus.seen.set x now } ∧
+        n'.stations = n.stations.set x (upSt stx { s := checkBusActivity stx.s now (arrived cfg [rp] now).length, apps := stx.apps, rx := arrived cfg [rp] now }) := ⟨_, hpe, rfl, rfl⟩
+    have hseen : n'.bus.seen.getD x 0 = now := by rw [hbus]; exact seen_set_self _ _ _ h.xs
+    have hsy : n'.bus.seen.getD y 0 = n.bus.seen.getD y 0 := by rw [hbus]; exact seen_set_other n.bus x y now hxy
+    have haddr : (upSt stx { s := checkBusActivity stx.s now (arrived cfg [rp] now).length, apps := stx.apps, rx := arrived cfg [rp] now }).s.p.address = stx.s.p.address := by
+      show (checkBusActivity stx.s now _).p.address = _; rw [f2]
+    have hlenle : (arrived cfg [rp] (n.bus.seen.getD x 0)).length ≤ (arrived cfg [rp] now).length := by
+      rw [← hcat, List.length_append]; omega
+    refine ⟨n', inc, _, hpe', rfl, f2, .inl ⟨l1, ?_⟩⟩
+    refine ⟨hsY.otherPoll x now _ hxy hbus hstn, h.sty_st, Int.le_trans h.qtl htl, h.tto, h.nadm,
+      by rw [hstn]; exact List.getElem?_set_self h.xl, by rw [hstn, List.length_set]; exact h.xl,
+      by rw [hbus]; simp only [List.length_set]; exact h.xs,
+      ⟨hon, hal, hinv', by show (checkBusActivity stx.s now _).online = true; rw [f4]; exact hson,
+        by show (checkBusActivity stx.s now _).p.rate = _; rw [f2]; exact hprate,
+        by show (checkBusActivity stx.s now _).p.slotBits = _; rw [f2]; exact hpslot⟩,
+      by show (checkBusActivity stx.s now _).st = _; rw [f1]; exact h.stx_st,
+      by show (checkBusActivity stx.s now _).gap = _; rw [f5]; exact h.stx_gap, h.yx,
+      ⟨dnx, by rw [haddr, hbus]; exact htxs0, hdnx⟩, ?_, ?_, ?_, hl1, hl1ge, h.qlate, .inr (by rw [hseen]; exact hle1), ?_,
+      by rw [hbus]; exact fun t ht => Int.le_trans (h.starts t ht) htl,
+      by rw [hseen, hsy]; exact ⟨Int.le_refl _, Int.le_trans h.seens.2 htl⟩⟩
+    · rw [haddr, hseen, ← hrp]; rfl
+    · rw [haddr, hseen, ← hrp]
+      show (checkBusActivity stx.s now _).pendingBytes ≤ _
+      unfold checkBusActivity
+      split
+      · exact Nat.le_refl _
+      · omega
+    · rw [haddr, hseen, ← hrp]; exact hV
+    · rw [haddr, hseen, ← hrp]; exact hw_slot.2
+  · -- the reply is complete
+    have hV6' : cvis cfg rp now = 6 := by omega
+    obtain ⟨b2, hrec, hb2⟩ := hfull (by rw [hlenA, hwl]; omega)
+    have hb2' : b2 = [] := List.eq_nil_of_length_eq_zero (by
+      have := congrArg List.length hb2
+      simp only [streamOf, List.map_nil, List.flatten_nil, List.length_nil, List.length_append] at this
+      omega)
+    subst hb2'
+    have hqe : q + ((cfg.ce 5 : Nat) : Int) ≤ now := by
+      have := (cvis_spec cfg rp now 5 (by rw [hlen]; omega)).1 (by omega)
+      omega
+    have hd : dispatch { s := checkBusActivity stx.s now (arrived cfg [rp] now).length, apps := stx.apps, rx := arrived cfg [rp] now } now = .ok (replyCtx (checkBusActivity stx.s now (arrived cfg [rp] now).length) stx.apps now) := by
+      unfold dispatch
+      simp only [f1, h.stx_st]
+      rw [claimAwait_reply _ now 1 sty.s.p.address [] (rpTel stx.s.p.address sty.s.p.address state) _ true [] state .ok
+        (by show (checkBusActivity stx.s now _).st = _; rw [f1]; exact h.stx_st)
+        (by show (checkBusActivity stx.s now _).gap = _; rw [f5]; exact h.stx_gap)
+        (by show _ ≠ (checkBusActivity stx.s now _).p.address; rw [f2]; exact hneA) hrec
+        (by show replyOf (checkBusActivity stx.s now _).p.address _ _ = _; rw [f2];
+            exact replyOf_rpTel _ _ state (by omega) (by omega)) h.nadm]
+      rfl
+    obtain ⟨cR, hdr, k1, k2, k3, k4, k5, k6, k7⟩ : ∃ cR : Ctx, dispatch { s := checkBusActivity stx.s now (arrived cfg [rp] now).length, apps := stx.apps, rx := arrived cfg [rp] now } now = .ok cR ∧ cR.s.online = true ∧ cR.s.p = stx.s.p ∧ cR.rx = [] ∧
+        cR.s.lastBusActivity = some now ∧ cR.tx = none ∧ cR.s.st = .claimToken .scan ∧ cR.s.gap = stx.s.gap := by
+      refine ⟨_, hd, ?_, ?_, rfl, ?_, rfl, rfl, ?_⟩
+      · show (markRx (checkBusActivity stx.s now _) now).online = true
+        unfold markRx markBusActivity; exact f4.trans hson
+      · show (markRx (checkBusActivity stx.s now _) now).p = _
+        unfold markRx markBusActivity; exact f2
+      · show (markRx (checkBusActivity stx.s now _) now).lastBusActivity = _
+        exact markRx_stamp _ now l1 hl1 hle1
+      · show (markRx (checkBusActivity stx.s now _) now).gap = _
+        unfold markRx markBusActivity; exact f5
+    rw [hpd, hdr] at hc''
+    have hcc : cR = c' := by injection hc''
+    rw [← hcc] at hinv'
+    have hpoll : stx.s.poll stx.apps now (Bus.transmitting { n.bus with seen := n.bus.seen.set x now } x now) (stx.rx ++ inc) =
+        .ok cR := by
+      rw [transmitting_seen, hphy, hrx', hpd]; exact hdr
+    have hpe := Net.poll_eq n x now stx _ inc cR h.gx hal hon hdv hpoll
+    rw [k5] at hpe
+    obtain ⟨n', hpe', hbus, hstn⟩ : ∃ n', n.poll x now = (n', inc, some (.ok cR)) ∧
+        n'.bus = { n.bus with seen := n.bus.seen.set x now } ∧ n'.stations = n.stations.set x (upSt stx cR) := ⟨_, hpe, rfl, rfl⟩
+    have hseen : n'.bus.seen.getD x 0 = now := by rw [hbus]; exact seen_set_self _ _ _ h.xs
+    have haddr : (upSt stx cR).s.p.address = stx.s.p.address := by show cR.s.p.address = _; rw [k2]
+    refine ⟨n', inc, cR, hpe', k5, k2, .inr ⟨hqe, ?_⟩⟩
+    refine ⟨?_, hsY.otherPoll x now _ hxy hbus hstn, k6, by show cR.s.gap = _; rw [k7]; exact h.stx_gap, h.sty_st, h.yx,
+      ⟨dnx, state, by rw [haddr, hbus]; exact htxs0, fun o ho => (hdnx o ho).1, h.nadm⟩⟩
+    refine ⟨by rw [hbus]; exact hsY.rate, by rw [hbus]; exact hsY.drops, by rw [hbus]; exact hsY.corrupt,
+      by rw [hbus]; exact hsY.chained, by rw [hbus]; exact hsY.live, by rw [hbus]; exact hsY.pos, ?_, ?_,
+      by rw [hstn, List.length_set]; exact h.xl, by rw [hbus]; simp only [List.length_set]; exact h.xs,
+      by rw [hstn]; exact List.getElem?_set_self h.xl, hon, hal, hinv', k1, k3, k4,
+      by show cR.s.p.rate = _; rw [k2]; exact hprate, by show cR.s.p.slotBits = _; rw [k2]; exact hpslot⟩
+    · intro o ho
+      rw [hseen]
+      rw [hbus] at ho
+      have ho' : o ∈ dnx ++ [rp] := by rw [← htxs]; exact ho
+      rcases List.mem_append.1 ho' with hm | hm
+      · exact .inl (hdnx o hm).1
+      · simp only [List.mem_singleton] at hm; subst hm
+        right; unfold cEnd; rw [hlen, hstart]; exact hqe
+    · intro o ho hso
+      rw [hbus] at ho
+      have ho' : o ∈ dnx ++ [rp] := by rw [← htxs]; exact ho
+      rcases List.mem_append.1 ho' with hm | hm
+      · have := (hdnx o hm).2; omega
+      · simp only [List.mem_singleton] at hm; subst hm; rw [hsender] at hso; exact absurd hso h.yx
+
 end PV
